@@ -19,7 +19,8 @@ RULE = ('split: every valid signature of <=4 (quick) / <=5 (thorough) characters
         'select their code, marshal("v") succeeds and unmarshal returns an equal value (Python ==); infer_long: wide structs '
         'whose inferred signature has exactly 250..255 characters. Non-trivial: '
         'signature contains a container / value contains a container with >=2 elements; distinct = distinct case JSON. Dict keys: str, '
-        'int, float, bool and every wrapper class (integers, ObjectPath, Signature).')
+        'int, float, bool and every wrapper class (integers, ObjectPath, Signature). infer_long also pairs numbers of different '
+        'Python types in both orders (float / int / bool / 64-bit and narrow wrappers): each travels as what it is.')
 ASSUMPTIONS = [
     'containers whose elements share a Python class but not a D-Bus type are outside the claim and not generated',
     'plain ints stay within int32; NaN is not generated (Python equality is the stated oracle); the keys of one dict are all of '
@@ -400,6 +401,19 @@ def enum_infer_long(tier):
             yield {'pv': lists, 'off': 0}                                               # (saiai...ai)
         mixed = ['tuple', [['w', 'y', 5]] + [['int', i % 3] for i in range(total - 4)] + [['w', 't', 2**40]]]
         yield {'pv': mixed, 'off': 1}
+    # numbers of different Python types in one list, in both orders: each travels as what it is (no promotion to the first
+    # element's type - a double cannot hold every 64-bit integer, a byte cannot hold 1000)
+    flt = lambda f: ['float', struct.pack('>d', f).hex()]    # noqa: E731
+    nums = [flt(0.5), flt(-0.0), ['int', 7], ['int', 2**31 - 1], ['bool', True], ['w', 'x', 2**53 + 1], ['w', 'x', -2**63],
+            ['w', 't', 2**64 - 1], ['w', 'y', 255], ['w', 'n', -2**15], ['w', 'u', 2**32 - 1]]
+    for a in nums:
+        for b in nums:
+            # (b an instance of a's Python class - a wrapper or a bool after a plain int - is the case the claim leaves out:
+            # see ASSUMPTIONS)
+            if (a[0] != b[0] or (a[0] == 'w' and a[1] != b[1])) and not _related(a, b):
+                yield {'pv': ['list', [a, b]], 'off': 0}
+                yield {'pv': ['list', [a, b, a]], 'off': 5}
+                yield {'pv': ['dict', [[['str', 'p'], a], [['str', 'q'], b]]], 'off': 2}
     # the same container object used twice inside one value
     for shape in ('pair', 'triple', 'mixed', 'dictvals'):
         for inner in (['list', [['int', 0], ['int', 0]]], ['dict', [[['str', 'a'], ['int', 1]]]], ['list', []],
